@@ -8,9 +8,9 @@ From Flyt Require Import Base Script FlowTable Engine BatchConc EngineCorr Engin
 Theorem C08_upper :
   forall (o : oracle) c nd (items : list val) stopmode nworkers qcap s0 sched,
     let s := brun o c nd items stopmode qcap (binit items nworkers s0) sched in
-    length (parked s) <= nworkers /\ count_run (ws s) <= nworkers.
+    length (parked c s) <= nworkers /\ count_run (ws s) <= nworkers.
 Proof.
-  intros. apply (inflight_bound items nworkers). apply brun_inv. apply binit_inv.
+  intros. apply (inflight_bound c items nworkers). apply brun_inv. apply binit_inv.
 Qed.
 Print Assumptions C08_upper.
 
